@@ -7,13 +7,12 @@ CL = {'*': 'reference_cache'}
 
 
 def run(ded, repo, tier):
-    for q in m.HELPERS:
-        eng = m.make_engine(repo)
-        driver.discharge(ded, eng, q, clause_of={'*': 'ring_invariant'}, tier=tier, timeout=30 if tier == 'quick' else 120)
-    for q, variants in m.PUBLIC:
-        for v in variants:
-            eng = m.make_engine(repo)
-            driver.discharge(ded, eng, q, clause_of=CL, tier=tier, variant=v, timeout=30 if tier == 'quick' else 120)
+    to = 30 if tier == 'quick' else 120
+    specs = [dict(module='contracts.lri', repo=repo, q=q, clause_of={'*': 'ring_invariant'}, tier=tier, timeout=to)
+             for q in m.HELPERS]
+    specs += [dict(module='contracts.lri', repo=repo, q=q, variant=v, clause_of=CL, tier=tier, timeout=to)
+              for q, variants in m.PUBLIC for v in variants]
+    driver.run_parallel(ded, specs)
     # API closure (finite obligation on the real class text): every dict mutator is overridden, so no inherited C-level
     # mutator can change the dict part behind the ring's back
     from pyvc import front
